@@ -8,7 +8,7 @@ from framework import Result
 ID = 'C08'
 LEAN_TARGETS = ['TexSoupProofs.Properties.C08']
 THEOREMS = ['TexSoup.C08.' + n for n in ('conservation', 'output_sublist', 'output_exact', 'reader_invariant',
-                                         'conservation_string')]
+                                         'conservation_string', 'dropped_tokens_are_whitespace')]
 PARTIAL = ['hypothesis EnvNamesPlain (finding F4b) is part of the theorem; inputs violating it are covered by the oracle '
            'and the known-findings list, not by the proof']
 TRUSTED = ['harness/gen_tables.py (tables regenerated from the working tree)',
@@ -16,7 +16,7 @@ TRUSTED = ['harness/gen_tables.py (tables regenerated from the working tree)',
            'modelled, not verified: control flow of reader.py, tokens.py, data.py serialisers']
 ASSUMPTIONS = ['CPython str semantics', 'the model driver is the compiled form of the verified definitions']
 
-ALPHA = [a for a in gen.TOKEN_ALPHA if '\x00' not in a and '\x7f' not in a]
+ALPHA = [a for a in gen.TOKEN_ALPHA if '\x00' not in a and '\x7f' not in a] + ['~', '&', '#', '^', '_', '\t', '\r', 'é', '*', '|', '.']
 
 
 def correspondence(ctx):
